@@ -38,6 +38,9 @@ def main():
         if os.path.abspath(os.path.join(src, f)) != os.path.abspath(os.path.join(dest, f)):
             shutil.copy(os.path.join(src, f), os.path.join(dest, f))
     patch = os.path.join(dest, 'patch.diff')
+    if os.path.exists(os.path.join(dest, 'patch_rebased.diff')):
+        # the same change re-based on a later HEAD of /repo (a fix: commit touched the lines the original patch was written against)
+        patch = os.path.join(dest, 'patch_rebased.diff')
     meta = {'seed': seed, 'property': prop, 'description': opts.get('--desc', ''), 'needs_to_manifest': opts.get('--needs', ''), 'ran': []}
     # the demo refers to its worktree path: rewrite to the scratch worktree for confirmation
     demo_text = open(os.path.join(dest, 'demo.py')).read()
